@@ -1063,7 +1063,10 @@ where
     /// ## Errors
     /// If the report contents are invalid.
     pub fn from_bytes(mut bytes: Bytes) -> Result<Self, InvalidHybridReportError> {
-        match HybridEventType::try_from(bytes[0])? {
+        let Some(&event_type) = bytes.first() else {
+            return Err(InvalidHybridReportError::Length(0, 1));
+        };
+        match HybridEventType::try_from(event_type)? {
             HybridEventType::Impression => {
                 bytes.advance(1);
                 let impression_report = EncryptedHybridImpressionReport::<BK>::from_bytes(bytes)?;
